@@ -70,6 +70,24 @@ CHECKS.update({
          'DESIGN.md 5.3, 6/C16'),
 })
 
+CHECKS.update({
+ 'C07': (True, 'model_checking',
+         'TlvModel scan machine instantiated with Interest/Data/Certificate/LpPacket schemas written from the format documents; TLC checks Verdict=accept <=> WellFormed and out=Extract over all element sequences; every TLC terminal state is serialised by a strict writer and replayed on parse_interest / parse_data / parse_certificate / parse_lp_packet_v2 / Name.from_bytes; mutation corpus and random strings classified by a strict reader and judged by TLC (TlvModelC07Judge); interpreter step counts for linearity',
+         'For every element sequence in the bound (recognised fields x legal/illegal width, overrunning children, overrunning name components, empty, unknown critical/non-critical, cut headers) TLC proves the machine accepts exactly the declaratively well-formed inputs and extracts the declarative fields, and the real decoder must agree: accept with those fields, or a documented error. 6k (quick) / 130k (thorough) mutated or random byte strings are accepted only if the TLC reference gives the same verdict and fields. Line-event counts at 1/2/4/8x must stay within a*len+b.',
+         'Trusted: TLC, strict_tlv (each emitted sequence is written, read back and compared), result projection in c07.decode. Interpretations: non-shortest T/L numbers accepted; any legal uint width accepted for fixed-width fields; Name.from_bytes judged on its leading element only; LP FragIndex/FragCount rejection is modelled as unsupported. One known finding KF-C07-3 (LP envelope tolerates an overrunning element).',
+         'DESIGN.md 5.3, 6/C07'),
+ 'C08': (True, 'model_checking',
+         'TLA+ reference of tlv_model (TlvNum, TlvModel, TlvModelScan) checked by TLC on a family of model classes x boundary values x edits; TLC-emitted Encode/AnnouncedLength/edit-outcome vectors executed on classes built through the real metaclass with an independent strict TLV reader; random and all shipped model classes judged by TLC (TlvModelJudge)',
+         'TLC explores the scan machine on every enumerated (class, legal assignment, edit) and checks Parse(Encode(v))=v, Size(Encode)=AnnouncedLength, declared order, minimal widths, IncludeBase collection, non-critical insertion ignored at every position/level and unknown/repeated/out-of-order critical rejected. The same enumeration is executed on the real classes (announced length, strict projection of the wire equal to Encode, parse-back, each edit). Observations on 40-500 random classes and 54 shipped classes with random values and edits are accepted only if the TLC reference reproduces them.',
+         'Trusted: TLC, strict_tlv (cross-checked against TlvNum vectors every run), the value projection in tlvkit, Python utf-8 codec. Bounded: the boundary sets named in the property, <=3 nesting levels, at most K fields off default when the product exceeds Cap. Custom Field subclasses (SignatureValue/InterestName) kept absent. One known finding KF-C08-2 (NameField with a type number other than 7).',
+         'DESIGN.md 5.3, 6/C08'),
+ 'C18': (True, 'model_checking',
+         'TLA+ spec Svs checked exhaustively by TLC (action properties, open and implementation-resolved modes, deviation counterexamples); on-the-fly transition cover of the TLC state graph on the real SvsInst; recorded executions validated by TLC (SvsTrace, two-pass with named deviations)',
+         'TLC checks Monotone, EntrywiseMax, OverclaimIgnored, MissingIffRaised, PublishEmitsFullVector, HeardIsMerge, SuppressionDecision and EmitsOnlyLocal as action properties on Svs for 3 nodes, sequence numbers 0..2 (thorough: 0..3), every packet over that bound (partial, over-claiming, entries without node id or sequence number in both encoding orders, undecodable) and event sequences of any length, with everything C18 leaves open kept nondeterministic, and again with the choices resolved as sync.py does. Every (state, stimulus) pair of the implementation-resolved state graph is then applied to a real SvsInst on a v2 NDNApp on the virtual-time loop, with the public projection matched against the graph successors. Random 5-node, ~100-event histories are accepted only if SvsTrace explains every event.',
+         'Trusted: TLC, the virtual-time loop, appv2 delivery to the handler, the harness vector encoder. Bounded: 3 nodes and seq <= 3 exhaustively, 5 nodes and seq <= 20 in traces. The same-loop-iteration race of packet and timer, duplicate node ids in one vector, and multi-instance convergence are not covered.',
+         'DESIGN.md 5.9, 6/C18'),
+})
+
 NOT_YET = {}
 
 
